@@ -344,6 +344,12 @@ pub fn gen_tileset(rng: &mut Rng, opts: &GenOpts) -> TileSet {
 			let a = rng.usize_below(last_raw.len() / 2);
 			let b = a + 1 + rng.usize_below(last_raw.len() - a - 1);
 			last_raw[a..b].to_vec()
+		} else if !opts.really_compress && !opts.unique_payloads && rng.chance(0.06) {
+			// fixed-size tiles that share their first rows and differ only behind them (raw raster / elevation
+			// tiles): the same length, the same first kilobyte, another tile
+			let mut v = dup_pool[4][..1500].to_vec();
+			v.extend_from_slice(format!("{z:02}/{x:010}/{y:010}").as_bytes());
+			v
 		} else if !opts.unique_payloads && (dup_mode == 3 || (dup_mode == 2 && rng.chance(0.6)) || (dup_mode == 1 && rng.chance(0.15))) {
 			if dup_mode == 3 {
 				dup_pool[1].clone()
